@@ -97,6 +97,24 @@ WHAT = {
     'r3-C18-B': 'a dangling unary sign after a separator is no longer counted: `=SUM(1,-)` parses as SUM(-1)',
     'r3-C20-A': 'WEEKDAY return types 11-17 folded like WEEKNUM: type 12 becomes zero-based',
     'r3-C20-B': 'largest serial replaced by (datetime.max - DATE_ZERO).days, one less than Excel\'s',
+    'r4-C01-A': 'operator rank copied into attr before the sign is renamed: a prefix sign keeps the binary rank',
+    'r4-C01-B': '`^` made right-associative through an associativity set',
+    'r4-C03-A': 'self.references read once at the top of complete()',
+    'r4-C03-B': 'external links numbered by len(table) + 1 after the .xlsx filter',
+    'r4-C04-A': 'module-level cache of sheet locations keyed without the external-link table',
+    'r4-C04-B': 'reversed corners put in order in the fast paths; the R1C1 path compares the regex text',
+    'r4-C07-A': 'compile repoints the model\'s own SELF default at the compile-time sub-dispatcher (shared record)',
+    'r4-C07-B': 'inverse assembler returns cells first, blocks second; outputs were registered blocks first',
+    'r4-C10-A': 'cut-node candidates iterated as cycle.intersection(wrappers), unsorted',
+    'r4-C10-B': '_check_cycles answers from the cut map for a node already scheduled (second cycle never opened)',
+    'r4-C11-A': 'convert_nan returns the value when isfinite raises TypeError (same idea as r2-C11-B, found independently)',
+    'r4-C11-B': 'DEC2BIN/OCT/HEX: places re-bound to None for negatives, dropping an error passed there',
+    'r4-C14-A': 'workbooks that failed once are remembered; a missing sheet makes every later reference into the book #REF!',
+    'r4-C14-B': 'broad `except Exception` around add_book/add_sheet narrowed to a tuple of four classes',
+    'r4-C15-A': 'sheet-extent cache keyed by sheet title via D.get(title) (same idea as C03-A/C15-A)',
+    'r4-C15-B': 'books.pop(book.upper()) now really evicts a book whose sheet is missing, names included',
+    'r4-C19-A': 'AVERAGEIF averaged through the numpy path of SUMIF (FALSE counts as 0)',
+    'r4-C19-B': 'VLOOKUP column index checked against len(vec) before the table is transposed',
 }
 FIRST1 = {
     "C01-A": "exit 2 (unrecognised rewrite)",
@@ -145,13 +163,13 @@ WHY_MISSED = {
     'C20-A': 'value-level calendar arithmetic',
     'r2-C02-B': 'the operator core is built by a new factory the registry model cannot see through: C02 answers "cannot decide" (exit 2); which error code a numpy fast path yields is value-level',
     'r2-C05-B': 'value-level: result shape depends on a condition value; C11 answers "cannot decide" on the new variadic args_parser',
-    'r2-C09-B': 'needs an escaped/un-escaped typestate of strings across the Cell/Ref constructors',
     'r2-C13-B': 'value-level arithmetic of the result of RANDBETWEEN',
     'r2-C18-A': 'needs a per-object typestate of Token.attr across the shunting-yard stack (which dynamic get_* reads are preceded by a store)',
     'r2-C20-B': 'value-level: which texts float() accepts',
     'r3-C08-A': 'idempotence of a graph-building pass (what a second run leaves behind) - a history property of values',
     'r3-C18-A': 'same as r2-C18-A (found independently): typestate of Token.attr',
     'r3-C18-B': 'value-level protocol between the argument counter and the shunting-yard stack',
+    'r4-C15-B': 'which key a book is stored under (upper-cased path) is value-level; the eviction itself is the documented behaviour of the handler',
 }
 
 
@@ -160,7 +178,7 @@ def main():
     for p in sorted(glob.glob(os.path.join(HERE, 'seeded', '*', 'meta.json'))):
         m = json.load(open(p))
         metas[m['id']] = m
-    for rnd in (1, 2, 3):
+    for rnd in (1, 2, 3, 4):
         print('\n**Round %d**\n' % rnd)
         print('| seed | what was changed | first run | now: own check (rule) '
               '| now: other checks |')
